@@ -11,6 +11,29 @@ TRUST = ('TLC/SANY (and Apalache where named), the JSON bridge between TLC and t
          'guards the bridge. ')
 
 CHECKS = {
+    'C05': dict(
+        technique='TLA+ MemoryBound invariant on the capture-engine model (TLC, every stream x chunking); retention caps per format/region in spec/ImageRef.tla with ASSUME CapsWithinBound evaluated by TLC; hostile layouts enumerated by TLC, streamed through the real inspectors, per-chunk context_info validated by Trace_Retention',
+        category='model_checking',
+        text='The engine-level reason for the bound (a region never holds more than its declared length, an end region never more '
+             'than its window) is an invariant of CaptureEngine.tla checked exhaustively in the small scope. The format-level reason '
+             '(every region length is capped by a constant whatever the image announces) is the Cap/Bound table of ImageRef.tla, '
+             'whose sums TLC checks against the property bounds. The code is bound by streaming TLC-enumerated hostile layouts '
+             '(descriptor sector counts up to 2^64-1, item lengths up to 2^32-1, table counts 2047/2048/65535, 3 MiB streams) and '
+             'mutated/polyglot/unstructured images under giant, 1 MiB, 64 KiB, 4 KiB, boundary and random chunkings, checking the '
+             'bound after every chunk and validating the recorded per-region retention traces against caps and growth rule in TLC.',
+        design_ref='6/C05',
+        note=TRUST + 'Memory is sum(context_info.values()) as the property states; interpreter overhead is out of scope.'),
+    'C07': dict(
+        technique='TLA+ reference ImageRef!Ref (size as symbolic token) and CarrierEnd per layout, enumerated by TLC; real inspectors streamed under boundary-derived chunkings with virtual_size sampled after every chunk; samples validated by Trace_Size (unknown => 0, known => declared); engine-level ZeroWhileUnknown invariant in CaptureEngine',
+        category='model_checking',
+        text='For every layout TLC exports the declared size (symbolically) and the stream position from which it is known. The real '
+             'inspectors are streamed over the built images (all size tokens x admissible layouts: VHDX entry order/padding 0..2046, '
+             'metadata placement, item offsets; VMDK descriptor lengths; ISO block sizes; truncations) and over random 64-bit sizes, '
+             'with virtual_size sampled after every chunk: it must be 0 before the carrier is complete and the declared size from '
+             'then on, under every chunking tried; the sampled sequences are also validated by the two-state trace spec in TLC.',
+        design_ref='6/C07',
+        note=TRUST + '64-bit arithmetic is Python on both sides (TLC integers are 32-bit; sizes are tokens/decimal strings in the '
+             'spec). LUKS virtual_size on streams shorter than its header is not sampled.'),
     'C01': dict(
         technique='TLA+ capture-engine model (spec/CaptureEngine.tla) checked with TLC over every stream x every chunking in a small scope; the same exhaustive set executed on the real engine against the TLC-exported reference; recorded engine traces validated by Trace_CaptureEngine; real-scale layouts enumerated by TLC from spec/ImageRef.tla with reference verdicts, plus an agreement oracle over mutated/truncated/polyglot images and InspectWrapper read sizes',
         category='model_checking',
